@@ -132,6 +132,9 @@ def rule_sm_sign(ctx, prog, chk, family, famre, rule_name="SM-SIGN", only_named=
         if not exps or not fn.params:
             continue
         r = fn.params[0]
+        rv = fn.vars[r]
+        if "pc" not in rv or rv.get("pc"):
+            continue        # no output parameter: a predicate or helper that happens to carry the family's name
         # the point a scalar multiplies: the point-typed parameter just before it
         point_of = {}
         for E in exps:
@@ -209,7 +212,23 @@ def rule_sm_sign(ctx, prog, chk, family, famre, rule_name="SM-SIGN", only_named=
             w = engines.written_vars(prog, fn, node.el.e)
             if r in w and not any(cl[1] and re.search(r"_set_infty$", cl[1]) for cl in ir.calls_in(fn, node.el.e)):
                 s = frozenset(x for x in s if x != ("ev", "infty"))
+            if r in w:
+                s = frozenset(x for x in s if x != ("ev", "untouched"))
             return s
+
+        def moot_by(k, E, point_of=point_of):
+            """does the truth of the (pure) condition with key k make the term of scalar E moot?  a disjunction does when
+            each of its disjuncts does"""
+            if not isinstance(k, tuple):
+                return False
+            if k[0] == "b" and k[1] == "||":
+                return moot_by(k[2], E) and moot_by(k[3], E)
+            if k[0] == "c" and k[1] == "bn_is_zero" and len(k[2]) == 1 and is_scalar(k[2][0], E):
+                return True
+            P = point_of.get(E)
+            if k[0] == "c" and P is not None and isinstance(k[1], str) and re.search(r"_is_infty$", k[1]) and k[2] == (("v", P),):
+                return True
+            return False
 
         def edge_gen(node, label, atoms, fn=fn, exps=exps, point_of=point_of):
             out = []
@@ -222,12 +241,23 @@ def rule_sm_sign(ctx, prog, chk, family, famre, rule_name="SM-SIGN", only_named=
                     P = point_of.get(E)
                     if P is not None and isinstance(at[1][1], str) and re.search(r"_is_infty$", at[1][1]) and at[1][2] == (("v", P),):
                         out.append(("ev", "moot", E))
+            # the condition held in a local (v = A || B; if (v) ...): the local found truthy
+            cur = engines.CURRENT
+            st = getattr(cur, "edge_state", None) if cur is not None else None
+            if st:
+                for at in atoms:
+                    if at[0] == "cmp" and isinstance(at[1], tuple) and at[1][0] == "v" and engines.entails(at[2], at[3], "!=", 0):
+                        for b in st:
+                            if b[0] == "rel" and b[1] == at[1] and b[2] == "==":
+                                for E in exps:
+                                    if moot_by(b[3], E):
+                                        out.append(("ev", "moot", E))
             return out
         miss_of = {}
         nret = 0
         somewhere = set()
         for follow, assign in engines.condition_worlds(g):
-            F = Facts(prog, g, gen=gen, extra_kill=kill, edge_gen=edge_gen, mark_thrown=True, follow=follow)
+            F = Facts(prog, g, gen=gen, extra_kill=kill, edge_gen=edge_gen, mark_thrown=True, follow=follow, init=[("ev", "untouched")])
             for nd in g.nodes:
                 if nd.kind == "el":
                     st0 = F.IN.get(nd)
@@ -237,6 +267,8 @@ def rule_sm_sign(ctx, prog, chk, family, famre, rule_name="SM-SIGN", only_named=
                                 somewhere.add(x[2])
             for p, st in engines.normal_exit_states(F, g):
                 nret += 1
+                if ("ev", "untouched") in st:
+                    continue        # nothing was written through the output on this path: no point is returned
                 for E in exps:
                     if ("ev", "infty") in st or ("ev", "moot", E) in st or ("ev", "sc", E) in st:
                         continue
